@@ -505,5 +505,8 @@ PROPS["C09"]["rules"] = PROPS["C09"]["rules"] + [rules_conv.rule_nt_record_class
 PROPS["C09"]["explanation"] += " (NTCLASS) the number-type record written for an image carries the byte-order class of the image's type."
 PROPS["C06"]["rules"] = PROPS["C06"]["rules"] + [rules_conv.rule_nt_record_class]
 
+PROPS["C03"]["rules"] = PROPS["C03"]["rules"] + [rules_sd.rule_shape_needs_rank]
+PROPS["C03"]["explanation"] += " (SHAPE0) the public SD functions read var->shape[k] only under a test that implies rank > 0 (scalars have no shape)."
+
 NOT_APPLICABLE = {}
 
